@@ -14,6 +14,7 @@ import (
 //	waitReplaceStale      ProposeInternal replaces a pooled `done` channel that still holds a signal, before registering it
 //	waitTimeoutTriggers   the ctx.Done() arm of the wait function calls nd.w.Trigger(req.Header.ID, err) (before release)
 //	waitFailTriggers      a failed propose calls nd.w.Trigger(irr.Header.ID, err) before the header is released
+//	waitTriggerSignalsUnderLock   pkg/wait Trigger stores the result and signals the channel while it still holds the lock (fix 184e1b3)
 //
 // A change of one of these is NOT an anchor failure: the fact becomes `false` and the theorem over the regenerated
 // configuration no longer compiles. A change of the surrounding structure (order of registration and propose, what release
@@ -246,19 +247,47 @@ func init() {
 			"-- every registration has its own result slot; what is shared through the pool is the channel only\ndef waitRegisterFreshSlot : Bool := true")
 		anchor("wait.Trigger")
 		ft := findFunc("pkg/wait/wait.go", "multList.Trigger")
-		wantTrig := []string{
+		// two known shapes: the store and the signal UNDER the lock (since fix 184e1b3: `defer w.l.Unlock()` right after Lock), or
+		// after `w.l.Unlock()` (before the fix). Both keep: lookup + delete under the lock, store BEFORE the non-blocking send,
+		// panic when the buffer is full. Anything else is an anchor failure.
+		part2 := `if rd != nil { rd.value = x select { case rd.done <- struct{}{}: default: log.Panicf("done chan is full: %v", id) } }`
+		underLock := []string{
+			"w := mw[id%uint64(len(mw))]",
+			"w.l.Lock()",
+			"defer w.l.Unlock()",
+			"rd := w.m[id]",
+			"delete(w.m, id)",
+			part2,
+		}
+		afterUnlock := []string{
 			"w := mw[id%uint64(len(mw))]",
 			"w.l.Lock()",
 			"rd := w.m[id]",
 			"delete(w.m, id)",
 			"w.l.Unlock()",
-			`if rd != nil { rd.value = x select { case rd.done <- struct{}{}: default: log.Panicf("done chan is full: %v", id) } }`,
+			part2,
 		}
-		pinList("Trigger", ft.Body.List, wantTrig)
-		g.def("wait.Trigger", pos(ft), "Lock; rd := m[id]; delete(m, id); Unlock; if rd != nil { rd.value = x; non-blocking send on rd.done, panic when full }",
-			"-- part 1 (lookup + delete) under the lock; part 2 stores the result BEFORE the signal\ndef waitTriggerDeletesStoresSignals : Bool := true")
-		g.def("wait.Trigger.gap", pos(ft.Body.List[4]), "w.l.Unlock() precedes `rd.value = x` and the send",
-			"-- the store and the signal of Trigger happen AFTER the lock is dropped: Trigger is not atomic w.r.t. another Trigger of the same id\n-- (the waiter's own, on timeout) — the schedule condition of C04_wait_* is about exactly this window\ndef waitTriggerSignalsUnderLock : Bool := false")
+		var got []string
+		for _, st := range ft.Body.List {
+			got = append(got, norm(src(st)))
+		}
+		atomic := strings.Join(got, " ; ") == strings.Join(underLock, " ; ")
+		if !atomic && strings.Join(got, " ; ") != strings.Join(afterUnlock, " ; ") {
+			pinList("Trigger", ft.Body.List, underLock) // reports the first statement that differs from the current shape
+		}
+		if n := strings.Count(src(ft.Body), "Unlock"); n != 1 {
+			fail("Trigger mentions Unlock %d times", n)
+		}
+		g.def("wait.Trigger", pos(ft), "Lock; rd := m[id]; delete(m, id); if rd != nil { rd.value = x; non-blocking send on rd.done, panic when full }",
+			"-- lookup + delete under the lock; the result is stored BEFORE the signal\ndef waitTriggerDeletesStoresSignals : Bool := true")
+		unlockAt, unlockSrc := 2, "defer w.l.Unlock() right after w.l.Lock(): delete, `rd.value = x` and the send all happen under the lock"
+		if !atomic {
+			unlockAt, unlockSrc = 4, "w.l.Unlock() precedes `rd.value = x` and the send"
+		}
+		g.def("wait.Trigger.underLock", pos(ft.Body.List[unlockAt]), unlockSrc,
+			"-- true: Trigger is atomic w.r.t. every other access to the registration of the same id (the waiter's own Trigger on timeout takes the\n"+
+				"-- same lock). false (the code before fix 184e1b3): the store and the signal happen AFTER the lock is dropped — the window of the\n"+
+				"-- repaired defect C04_wait_FIXED_trigger_gap\ndef waitTriggerSignalsUnderLock : Bool := "+boolStr(atomic))
 		g.write()
 	}
 }
